@@ -13,6 +13,7 @@ use socket2::{Domain, Protocol, SockAddr, Socket, Type};
 pub enum Transport {
     Tcp,
     Unix,
+    Udp,
 }
 
 impl Transport {
@@ -20,6 +21,7 @@ impl Transport {
         match self {
             Transport::Tcp => "tcp",
             Transport::Unix => "unix",
+            Transport::Udp => "udp",
         }
     }
 }
@@ -65,6 +67,7 @@ pub fn raw_listener(t: Transport) -> (Socket, SockAddr) {
             must("listen", s.listen(16));
             (s, a)
         }
+        Transport::Udp => vcore::machinery_error("no listener for UDP"),
     }
 }
 
@@ -73,6 +76,7 @@ pub fn raw_listener(t: Transport) -> (Socket, SockAddr) {
 pub fn raw_connect(t: Transport, to: &SockAddr, bind_unix: bool) -> io::Result<Socket> {
     let s = match t {
         Transport::Tcp => Socket::new(Domain::IPV4, Type::STREAM, Some(Protocol::TCP))?,
+        Transport::Udp => return Err(io::Error::other("no stream connect for UDP")),
         Transport::Unix => {
             let s = Socket::new(Domain::UNIX, Type::STREAM, None)?;
             if bind_unix {
